@@ -11,7 +11,7 @@ from ..impl import Pen, Dfit, gen_matrix, compiled
 from ..blocks import Blk
 from . import est_common
 
-LEAN_MODULES = ["Skglm.Properties.C02", "Skglm.Properties.FISTA", "Skglm.Properties.GramCD"]
+LEAN_MODULES = ["Skglm.Properties.C02", "Skglm.Properties.FISTA", "Skglm.Properties.GramCD", "Skglm.Properties.PDCD"]
 
 
 def obj_gap(rep, name, f_skglm, f_ref, tol_margin, sig, inp, extra=None):
@@ -186,6 +186,26 @@ def run(ctx, rep):
                 dict(site="SqrtLasso.fit", estimator="SqrtLasso"), dict(X=X.tolist(), y=y.tolist(), alpha=as_))
         obj_gap(rep, "PDCD_WS(SqrtQuadratic) vs SqrtLasso", sq_obj(w2), fb, 1e-6 * (1 + abs(fb)),
                 dict(site="PDCD_WS.solve", solver="PDCD_WS"), dict(X=X.tolist(), y=y.tolist(), alpha=as_))
+    # a single feature: the closed-form optimum of the square-root Lasso against the primal-dual solver
+    for _ in range(ctx.n(4, 30)):
+        n = rng.choice([1, 2, 3, 6])
+        X = np.asfortranarray(np.array([[rng.choice([1.0, -1.0, 2.0, 0.5])] for _ in range(n)]))
+        y = np.array([rng.gauss(0, 1) + 2.0 for _ in range(n)])
+        as_ = rng.choice([0.1, 0.5])
+
+        def sq1(w):
+            return float(np.linalg.norm(y - X[:, 0] * w) + as_ * abs(w))
+        grid = np.linspace(-10, 10, 200001)
+        best = min(sq1(t) for t in grid[::50])
+        t0 = min(grid[::50], key=sq1)
+        best = min(sq1(t) for t in np.linspace(t0 - 0.01, t0 + 0.01, 20001))
+        w1, _, stop1 = PDCD_WS(tol=1e-9, max_iter=1000, max_epochs=20000).solve(X, y, compiled(SqrtQuadratic()), compiled(P.L1(as_)))
+        rep.count("PDCD_WS(SqrtQuadratic), one feature vs closed form", False, ("pdcd1", n, len(rep.nontrivial)))
+        if not sq1(float(w1[0])) <= best + 1e-5 * (1 + abs(best)):
+            rep.violate("PDCD_WS with a single feature: a generous budget does not reach the optimum of the square-root Lasso",
+                        dict(site="PDCD_WS.solve", solver="PDCD_WS", kind="single-feature-cycle"),
+                        input=dict(X=X.tolist(), y=y.tolist(), alpha=as_), impl_output=dict(w=float(w1[0]), stop_crit=float(stop1)),
+                        oracle=dict(optimum=best, reached=sq1(float(w1[0]))))
     rep.sample(dict(comparisons=sorted(rep.hist)))
 
 
